@@ -23,7 +23,7 @@ from fractions import Fraction
 
 from . import catalogue
 from .common import REPO, HardTimeout, Run, main_wrapper, make_pool, pmap, time_limit
-from .qc_common import BASE, project_dim
+from .dimproj import D1VEC, dim_expr, dimstr, project_dim, unit_expr
 from .tlc import Scratch, parse_tla_tuple, run_tlc, write_cfg
 
 PID = "C04"
@@ -61,9 +61,9 @@ CFG = {
                          ResultKinds={"none", "dim", "same"}, **NOVEC),
     },
     "thorough": {
-        "pairs": dict(ActL=E(-2, -1, 0, .5, 1, 2), ActM=E(-1, 0, 1), ActT=E(-2, -1, -.5, 0, 1), ActA=E(-1, 0, 1),
+        "pairs": dict(ActL=E(-2, -1, 0, .5, 1, 2), ActM=E(0, 1), ActT=E(-2, -1, -.5, 0, 1), ActA=E(-1, 0, 1),
                       DeclL=E(-1, 0, 1, 2), DeclM=E(0, 1), DeclT=E(-2, -1, 0), DeclA=E(-1, 0, 1),
-                      Values={"one", "big", "tiny", "f25", "cplx", "zero", "inf", "nan"},
+                      Values={"one", "big", "tiny", "cplx", "zero", "inf", "nan"},
                       NumValues={"one", "neg", "f25", "big", "zero", "fzero", "inf", "finf", "ninf", "nan", "fnan"},
                       Prefixes={"base", "kilo", "milli"}, Shapes={"scalar"}, MaxSeq=0, TupleDecls=False,
                       MaxParams=1, ResultKinds={"none"}, **NOVEC),
@@ -76,10 +76,10 @@ CFG = {
                          DeclL=E(0, 1), DeclM=E(0), DeclT=E(0), DeclA=E(0),
                          Values={"one"}, NumValues={"one", "zero"}, Prefixes={"base"},
                          Shapes={"scalar"}, MaxSeq=0, TupleDecls=False, MaxParams=3,
-                         ResultKinds={"none", "dim", "same"}, **NOVEC),
+                         ResultKinds={"none", "same"}, **NOVEC),
         "results": dict(ActL=E(-1, 0, 1, 2), ActM=E(0, 1), ActT=E(-2, 0), ActA=E(-1, 0, 1),
                         DeclL=E(1), DeclM=E(0), DeclT=E(0), DeclA=E(0),
-                        Values={"one", "zero", "nan"}, NumValues={"one", "zero"}, Prefixes={"base", "kilo"},
+                        Values={"one", "zero", "nan"}, NumValues={"one", "zero"}, Prefixes={"base"},
                         Shapes={"scalar"}, MaxSeq=0, TupleDecls=False, MaxParams=1,
                         ResultKinds={"dim", "same"}, **NOVEC),
     },
@@ -125,24 +125,6 @@ def _real():
 
 
 ANYVALS = {"zero", "fzero", "inf", "finf", "ninf", "nan", "fnan"}
-
-
-def dim_expr(dvec):
-    r = _real()
-    out = r["Dimension"](1)
-    for b, (n, d) in zip(BASE, dvec):
-        if n:
-            out = out * r["dim"][b]**r["sp"].Rational(n, d)
-    return out
-
-
-def unit_expr(dvec):
-    r = _real()
-    out = r["sp"].Integer(1)
-    for b, (n, d) in zip(BASE, dvec):
-        if n and b != "A":
-            out = out * r["unit"][b]**r["sp"].Rational(n, d)
-    return out
 
 
 def build_scalar(a):
@@ -275,14 +257,6 @@ def describe(a):
     return f"{a['k']}:{a['val']}:{a['pre']}"
 
 
-def dimstr(dvec):
-    parts = []
-    for b, (n, d) in zip(BASE, dvec):
-        if n:
-            parts.append(f"{b}^{n}" + (f"/{d}" if d != 1 else ""))
-    return "*".join(parts) or "1"
-
-
 def full(a):
     if a["k"] == "seq":
         return "[" + ", ".join(full(x) for x in a["items"]) + "]"
@@ -326,7 +300,7 @@ def call_key(call, allowed, observed):
     if call["r"]["rk"] != "none":
         s += f" -> {call['r']['rk']} {describe(call['r']['res'])}"
     al = "|".join(f"{o}{'+ran' if r_ else ''}" for o, r_ in allowed)
-    return f"probe {s} [{call['npos']} pos]: model allows {al}, code {observed[0]}{'+ran' if observed[1] else ''}"
+    return f"probe {s}: model allows {al}, code {observed[0]}{'+ran' if observed[1] else ''}"
 
 
 def enumerate_and_replay(run: Run, sc, cfgd: dict, pool, label: str) -> None:
@@ -374,9 +348,6 @@ def _bounds(c):
 
 # -------------------------------------------------------------------------------------------------
 # real -> abstract (code -> spec)
-
-D1VEC = [[0, 1]] * 8
-
 
 def value_class(x):
     """zero / fin / inf / ninf / nan of a number, None if it is none of them."""
